@@ -36,9 +36,10 @@ class DPT2ByteUnsigned(DPTNumeric):
     def to_knx(cls, value: int | float) -> DPTArray:
         """Serialize to KNX/IP raw data."""
         try:
-            knx_value = int(value) // cls.resolution
+            knx_value = int(value)
             if not cls._test_boundaries(knx_value):
                 raise ValueError("Value out of range")
+            knx_value //= cls.resolution
             return DPTArray((knx_value >> 8, knx_value & 0xFF))
         except (TypeError, ValueError, OverflowError) as err:
             raise ConversionError(
@@ -75,6 +76,7 @@ class DPTTimePeriod10Msec(DPT2ByteUnsigned):
     dpt_main_number = 7
     dpt_sub_number = 3
     value_type = "time_period_10msec"
+    value_max = 655350
     resolution = 10
     unit = "ms"
 
@@ -85,6 +87,7 @@ class DPTTimePeriod100Msec(DPT2ByteUnsigned):
     dpt_main_number = 7
     dpt_sub_number = 4
     value_type = "time_period_100msec"
+    value_max = 6553500
     resolution = 100
     unit = "ms"
 
